@@ -1844,7 +1844,14 @@ class Interp:
         return set(self.eval(e, env) for e in node.elts)
 
     def e_Dict(self, node, env):
-        return {self.eval(k, env): self.eval(v, env) for k, v in zip(node.keys, node.values)}
+        out = {}
+        for k, v in zip(node.keys, node.values):
+            try:
+                val = self.eval(v, env)
+            except Unsupported as u:
+                val = Opaque("dict value: %s" % u)
+            out[self.eval(k, env)] = val
+        return out
 
     def e_JoinedStr(self, node, env):
         return Opaque("f-string")
@@ -2093,6 +2100,8 @@ class Interp:
                 self.write_field(o, t.attr, v, t)
             elif isinstance(o, Opaque):
                 raise Unsupported("attribute store on opaque value")
+            elif hasattr(o, "__dict__") and not isinstance(o, (type, ModuleV, ClassV)):
+                setattr(o, t.attr, v)  # a concrete Python object created for this path (e.g. an ast node)
             else:
                 raise Unsupported("attribute store on %r" % (o,))
         elif isinstance(t, ast.Subscript):
